@@ -438,6 +438,21 @@ pub fn check_arbitrary(c: &ArbCase) -> Outcome {
     o
 }
 
+/// seed corpus of the coverage-guided campaign (tools/fuzz.sh c08_filters): generated (mostly valid, cut or flipped)
+/// encodings behind the eight header bytes the fuzz target decodes into a stream dictionary
+pub fn dump_corpus(dir: &std::path::Path, n: u32, seed: u64) -> std::io::Result<usize> {
+    const FILTERS: [&str; 6] = ["FlateDecode", "LZWDecode", "ASCIIHexDecode", "ASCII85Decode", "RunLengthDecode", "Crypt"];
+    crate::engine::dump_strategy(dir, n, seed, "C08", arb_strategy(), |c: &ArbCase| {
+        let ArbObj::Name(f) = c.filter.as_ref()? else { return None };
+        let idx = FILTERS.iter().position(|x| x == f)?;
+        // single filter, no /DecodeParms, limit 2^20
+        let mut v = vec![idx as u8, 0, 0, 0, 0, 0, 9, 0];
+        v.extend(c.data.expand());
+        v.truncate(8 + 64 * 1024);
+        Some(v)
+    })
+}
+
 fn boundary_int() -> impl Strategy<Value = i64> {
     prop_oneof![
         6 => prop::sample::select(vec![-1i64, 0, 1, 2, 3, 4, 5, 7, 8, 9, 10, 11, 12, 15, 16, 17, 32, 64, 255, 256]),
